@@ -100,7 +100,15 @@ impl Gen {
                            let v = self.rng.gen_range(lo(t).max(-100)..=hi(t).min(100));
                            return json!({"k":"assign","n":format!("{}{}", t.to_lowercase(), self.rng.gen_range(1..=2)),"e":{"k":"lit","t":"ANYINT","v":v}}); }
                        json!({"k":"assign","n":format!("{}{}", t.to_lowercase(), self.rng.gen_range(1..=2)),"e":self.expr(t, 2)}) }
-            4 => json!({"k":"assignidx","n":"arr","i":self.expr("INT", 1),"e":self.expr("INT", 2)}),
+            4 => {
+                // IEC 61131-3 does not say whether the subscript of the target or the assigned expression is
+                // evaluated first, so the subscript is kept free of calls (no side effect the right-hand side
+                // could observe)
+                let pous = std::mem::replace(&mut self.pous, false);
+                let i = self.expr("INT", 1);
+                self.pous = pous;
+                json!({"k":"assignidx","n":"arr","i":i,"e":self.expr("INT", 2)})
+            }
             5 => json!({"k":"if","c":self.expr("BOOL", 2),"t":self.block(d-1, in_loop),"e": if self.rng.gen_bool(0.5) { self.block(d-1, in_loop) } else { vec![] }}),
             6 => { let st = self.pick(&["SINT", "INT", "DINT", "USINT", "UINT"]); let nb = self.rng.gen_range(1..=3); let mut br = Vec::new(); let mut base = if lo(st) < 0 { self.rng.gen_range(-3..3) } else { self.rng.gen_range(0..3) };
                    for _ in 0..nb { let w = self.rng.gen_range(0..=2); br.push(json!({"labels":[{"lo":base,"hi":base+w}],"body":self.block(d-1, in_loop)})); base += w + 1 + self.rng.gen_range(0..2); }
